@@ -242,6 +242,9 @@ def gen_script(ctx, f, depth, recv_cls=None, top=False):
             break
         ctx.budget -= 1
         r = rng.random()
+        if ctx.kn.get("rnd_p") and rng.random() < ctx.kn["rnd_p"]:
+            acts.append({"a": "rnd"})
+            continue
         if body == "gen" and r < 0.45:
             acts.append({"a": "yield", "v": V.gen_value(rng, ctx.kn, ctx.classes), "catch": rng.random() < 0.3})
             if names and ctx.kn.get("rebind", True) and rng.random() < 0.4:
@@ -381,6 +384,8 @@ class Mat:
                 out.append((12, a["h"], m, v, bool(a.get("catch"))))
             elif k == "aio":
                 out.append((16, self.aio_closure(a)))
+            elif k == "rnd":
+                out.append((17,))
             elif k == "await":
                 out.append((13,))
             elif k == "awaitcall":
